@@ -24,6 +24,7 @@ From WG Require Import Transform.Pipelines.
 From WG Require Import PMF.Sched.
 From WG Require Import PMF.Ord.
 From WG Require Import BV.Access.
+From WG Require Import BV.MaskedIter.
 From WG Require Import Algo.PageRankQ.
 From WG Require Import Algo.PageRankStatements.
 
@@ -242,6 +243,10 @@ Extraction "model.ml"
   acc_offdeg_ring
   acc_offdeg_from_ring
   acc_next_successors
+  mi_collect
+  succ_collect
+  acc_ra_sm
+  mi_err_code
   seq_iter_from
   ra_labels
   seek_bits
